@@ -1123,3 +1123,42 @@ class C12(core.Property):
 
 
 PROPERTY = C12
+
+
+# ---------------------------------------------------------------------------------------------
+# Second tie for ServerCapabilitiesBuilder (appended; harness/gen_ast.py, coq/Base/PyMini.v,
+# Proofs/AstCapsEquiv.v): the SOURCE TEXT of _provider_options, _build and of 24 of the 34 _with_* methods is
+# translated on every run by the fail-closed AST translator into a deep embedding, and the kernel re-checks
+# that each of them leaves the builder Model/Caps.v's run_with leaves (alone and chained, as build() chains
+# them).  Not translated: the methods that assign an attribute of a possibly registered (shared) option object,
+# semantic_tokens, position_encodings, workspace_capabilities, build, __init__; get_capability is an oracle.
+# Imported late ("Module::theorem") so that a broken translator tie does not hide the other obligations.
+import sys as _sys
+_sys.path.insert(0, os.path.dirname(os.path.abspath(__file__)))
+import gen_ast as _gen_ast
+
+C12.obligations = list(C12.obligations) + ["Proofs.AstCapsEquiv::" + n for n in (
+    "ast_caps_with_equiv", "chain_equiv", "ast_caps_example")]
+C12.coq_targets = list(C12.coq_targets) + ["Proofs/AstCapsEquiv.vo"]
+C12.trusted_base = list(C12.trusted_base) + [
+    "translator tie: harness/gen_ast.py (Python ast -> PyMini, fail-closed) and the PyMini semantics "
+    "coq/Base/PyMini.v (hand-written meaning of the Python subset: `in` on a set, dict.get, `and` / `or` / "
+    "`is` on None and bool, attrs option classes as the record of their constructor arguments, a method that "
+    "returns self yields the self it leaves); get_capability is an oracle of those theorems"]
+_prev_regenerate = getattr(C12, "regenerate", None)
+
+
+def _regenerate(self, chk):
+    try:
+        if _prev_regenerate is not None:
+            _prev_regenerate(self, chk)
+    finally:
+        core.coq_make(["Props/C12.vo", "Extract/ExtractC12.vo"])     # the differential side first
+        with core._Lock("coq"):                                      # coq/Gen is shared
+            try:
+                _gen_ast.gen_caps()
+            finally:
+                core._coq_make(["Proofs/AstCapsEquiv.vo"])
+
+
+C12.regenerate = _regenerate
